@@ -27,22 +27,7 @@ ASSUMPTIONS = ["R1 reference interpreter is a faithful model of EVM block semant
                "256-bit states are sampled (K per pair), not enumerated",
                "KECCAK256 modelled as a collision-free function of the addressed bytes"]
 
-HONEST = ["optimal", "optimal", "any_model", "non_optimal", "skewed", "nth_model", "no_model", "unsat", "timeout"]
-
-
-def peer_plan(rng, n):
-    plan = []
-    for _ in range(n):
-        k = rng.choice(HONEST)
-        e = {"kind": k, "seed": rng.randrange(1, 1 << 16)}
-        if k == "skewed":
-            e["mode"] = rng.choice(["random", "random", "maximise"])
-        if k == "nth_model":
-            e["n"] = rng.randrange(1, 4)
-        if k == "timeout":
-            e["rlimit"] = rng.choice([2000, 20000, 200000])
-        plan.append(e)
-    return plan
+HONEST = C.HONEST
 
 
 def plan(tier, seed, batch):
@@ -56,60 +41,11 @@ def plan(tier, seed, batch):
 
 
 def build_op(spec):
-    i = spec["index"]
-    rw = stream(spec["seed"], i, "workload")
-    ro = stream(spec["seed"], i, "options")
-    rp = stream(spec["seed"], i, "peer")
-    mode = i % 10
-    if mode < 6:
-        backend = "-greedy"
-    elif mode < 8:
-        backend = "solver"
-    else:
-        backend = "-ub-greedy"
-    flags, desc = O.draw(ro, backend=backend)
-    fmt = "bl" if i % 3 != 2 else ("asm" if i % 2 == 0 else "single")
-    small = backend != "-greedy"
-    if fmt == "bl":
-        nb = 2 if small else 6
-        bl = []
-        for j in range(nb):
-            L = rw.choice([3, 4, 5, 6, 8, 10]) if small else None
-            bl.append(B.gen_block(rw, length=L, ending=(j < nb - 1) or rw.random() < 0.3, pseudo=False))
-        op = C.bl_op(bl, flags, style=rw.choice([0, 0, 0, 1, 3]))
-    else:
-        kw = {"block_kw": {"length": 6} if small else {}}
-        if fmt == "asm":
-            doc = CT.gen_combined(rw, ncontracts=1 if small else 2, nblocks_init=1, nblocks_run=2 if small else 4, **kw)
-            op = C.asm_op(doc, flags)
-        else:
-            doc = CT.gen_contract_asm(rw, nblocks_init=1, nblocks_run=2 if small else 4, **kw)
-            op = C.asm_op(doc, flags, single=True)
-    if backend != "-greedy":
-        op["peer_plan"] = peer_plan(rp, 12)
-        op["peer_default"] = {"kind": "optimal"}
-        op["cpu_s"] = 120
-    op["desc"] = desc
-    op["fmt"] = fmt
-    return op
+    return C.build_pipe_op(spec)
 
 
 def pairs_of(op, res):
-    fmt = op["fmt"]
-    if fmt == "bl":
-        r = C.bl_pairs(op, res)
-        if r is None:
-            return None
-        ins, outs = r
-        if len(ins) != len(outs):
-            return [("#count", ins and ins[0] or [], [("MISALIGNED", None)])]
-        return [("#%d" % i, a, b) for i, (a, b) in enumerate(zip(ins, outs))]
-    out = res["files"].get(C.output_path(op))
-    if out is None:
-        return None
-    in_doc = json.loads(op["files"][op["argv"][0]])
-    out_doc = json.loads(out.decode())
-    return C.doc_block_pairs(in_doc, out_doc, single=(fmt == "single"))
+    return C.pairs_of(op, res)
 
 
 def check_op(op, oracle_seed, k):
